@@ -130,6 +130,14 @@ fn check_server(s: &Srv, out: &mut Out) {
             out.add("C06", s, format!("RRQ for a missing file was answered with {:?} instead of ERROR 1 from the listening port", r.map(|x| verif_replay::fmt_packet(&x.0))));
         }
     }
+    for opts in [vec![opt(OptionType::TransferSize, 0)], vec![opt(OptionType::BlockSize, 1024), opt(OptionType::TransferSize, 0)]] {
+        let c = client();
+        c.send_to(&rrq("does-not-exist.bin", opts.clone()), s.addr).unwrap();
+        let r = recv(&c);
+        if !is_error(&r, ErrorCode::FileNotFound, s.addr) {
+            out.add("C06", s, format!("RRQ with options {:?} for a missing file was answered with {:?} instead of ERROR 1 from the listening port", opts, r.map(|x| verif_replay::fmt_packet(&x.0))));
+        }
+    }
     {
         let c = client();
         c.send_to(&rrq("/sub\\inner.txt", vec![]), s.addr).unwrap();
@@ -269,6 +277,50 @@ fn check_server(s: &Srv, out: &mut Out) {
             other => out.add("C09", s, format!("plain WRQ was answered with {:?} instead of ACK 0", other.map(|x| verif_replay::fmt_packet(&x.0)))),
         }
     }
+    // ---- C12: two interleaved transfers stay separate; an endpoint may start another transfer after its first one ------
+    {
+        // lock-step download of `name` by socket `c`, one step per call: returns the bytes received so far
+        fn step(c: &UdpSocket, srv: SocketAddr, state: &mut (Option<SocketAddr>, u16, Vec<u8>, bool)) {
+            if state.3 { return; }
+            if let Some((Packet::Data { block_num, data }, from)) = recv(c) {
+                if block_num == state.1 + 1 {
+                    state.1 = block_num;
+                    state.2.extend_from_slice(&data);
+                    if data.len() < 512 { state.3 = true; }
+                }
+                state.0 = Some(from);
+                let _ = c.send_to(&Packet::Ack(state.1).serialize().unwrap(), from);
+            } else if let Some(from) = state.0 {
+                let _ = c.send_to(&Packet::Ack(state.1).serialize().unwrap(), from);
+            }
+            let _ = srv;
+        }
+        let want_a: Vec<u8> = (0..3000u32).map(|i| (i % 253) as u8).collect();
+        let want_b: Vec<u8> = b"inner".to_vec();
+        let a = client();
+        let b = client();
+        let mut sa = (None, 0u16, Vec::new(), false);
+        let mut sb = (None, 0u16, Vec::new(), false);
+        a.send_to(&rrq("hello.bin", vec![]), s.addr).unwrap();
+        step(&a, s.addr, &mut sa);
+        b.send_to(&rrq("sub/inner.txt", vec![]), s.addr).unwrap();
+        step(&b, s.addr, &mut sb);
+        for _ in 0..12 {
+            step(&a, s.addr, &mut sa);
+            step(&b, s.addr, &mut sb);
+        }
+        if sa.2 != want_a || sb.2 != want_b {
+            out.add("C12", s, format!("two interleaved downloads (3000-byte hello.bin and 5-byte sub/inner.txt from two endpoints): the first endpoint received {} bytes ({}), the second {} bytes ({})",
+                sa.2.len(), if sa.2 == want_a { "correct" } else { "WRONG" }, sb.2.len(), if sb.2 == want_b { "correct" } else { "WRONG" }));
+        }
+        // the same endpoint asks again after its transfer has ended
+        let mut sb2 = (None, 0u16, Vec::new(), false);
+        b.send_to(&rrq("sub/inner.txt", vec![]), s.addr).unwrap();
+        for _ in 0..3 { step(&b, s.addr, &mut sb2); }
+        if sb2.2 != want_b {
+            out.add("C12", s, format!("an endpoint that had completed one download asked for sub/inner.txt again: received {:?} instead of the file", sb2.2));
+        }
+    }
     // ---- C12: non-request packets from an endpoint that owns no transfer -------------------------------------------
     for p in [Packet::Ack(1), Packet::Data { block_num: 1, data: vec![1, 2, 3] }, Packet::Oack(vec![]), Packet::Error { code: ErrorCode::NotDefined, msg: "x".into() }] {
         let c = client();
@@ -292,6 +344,12 @@ fn check_server(s: &Srv, out: &mut Out) {
             hostile.push((format!("RRQ {name}={v}"), [&[0u8, 1][..], b"hello.bin\0octet\0", name.as_bytes(), b"\0", v.as_bytes(), b"\0"].concat()));
         }
     }
+    // values far beyond memory whose low 16 / 32 bits look harmless (a truncating range check would let them through)
+    for v in ["4611686018427388416", "281474976711680", "4294967808", "65537", "66048"] {
+        for name in ["blksize", "windowsize", "timeout"] {
+            hostile.push((format!("RRQ {name}={v}"), [&[0u8, 1][..], b"hello.bin\0octet\0", name.as_bytes(), b"\0", v.as_bytes(), b"\0"].concat()));
+        }
+    }
     for (width, ch) in [(2usize, "é"), (3, "€"), (4, "𝄞")] {
         for lead in 0..width {
             for kind in [1u8, 2u8] {
@@ -305,10 +363,17 @@ fn check_server(s: &Srv, out: &mut Out) {
         }
     }
     for (what, bytes) in hostile {
+        // (a datagram that makes an allocation fail aborts this whole process: the runner reads the last PROBE line then)
+        println!("PROBE server config {:?}: datagram '{}' ({} bytes)", s.cfg, what, bytes.len());
         let h = client();
         h.set_read_timeout(Some(Duration::from_millis(20))).unwrap();
         h.send_to(&bytes, s.addr).unwrap();
-        let _ = recv(&h);
+        if let Some((Packet::Oack(_), from)) = recv(&h) {
+            // play along one step so that an accepted request reaches its worker, then stop it
+            let _ = h.send_to(&Packet::Ack(0).serialize().unwrap(), from);
+            let _ = recv(&h);
+            let _ = h.send_to(&Packet::Error { code: ErrorCode::NotDefined, msg: "stop".into() }.serialize().unwrap(), from);
+        }
         let c = client();
         c.send_to(&rrq("sub/inner.txt", vec![]), s.addr).unwrap();
         match recv(&c) {
